@@ -1,5 +1,6 @@
 from harness.props import _hier
 LEVEL = _hier.LEVEL
+EXTRA_PROPS_FILES = ["Scfg/Props/C01Join.lean"]
 
 
 def run(ctx):
